@@ -9,6 +9,7 @@
 """
 from __future__ import annotations
 
+import contextlib
 import io
 import os
 import shutil
@@ -70,7 +71,8 @@ class Work:
         cwd = os.getcwd()
         os.chdir(self.dir)
         try:
-            _, o = mm.process_options(cfg + cli + ["pk/a.py"], stdout=so, stderr=se, fscache=FileSystemCache())
+            with contextlib.redirect_stdout(so):     # process_options prints some warnings with a bare print()
+                _, o = mm.process_options(cfg + cli + ["pk/a.py"], stdout=so, stderr=se, fscache=FileSystemCache())
             return o, _scrub(se.getvalue() + so.getvalue())
         except SystemExit:
             return None, _scrub(se.getvalue() + so.getvalue())
@@ -437,7 +439,10 @@ def run_mypy(d: str, args: list[str]) -> str:
                        cwd=d, env=repo_env({"MYPY_FORCE_COLOR": "0", "NO_COLOR": "1"}), capture_output=True, text=True, timeout=600)
     if p.returncode not in (0, 1, 2):
         raise ToolFailure("mypy crashed in the diagnostics search: " + (p.stdout + p.stderr)[-500:])
-    return f"exit={p.returncode}\n" + _scrub(p.stdout + p.stderr)
+    # notices about the flag itself ("Warning: --strict-concatenate is deprecated; …") are printed by
+    # process_options for the global sources only; they are not diagnostics of the program
+    text = "\n".join(l for l in (p.stdout + p.stderr).splitlines() if not l.startswith("Warning: "))
+    return f"exit={p.returncode}\n" + _scrub(text)
 
 
 def diagnostics_equivalence(ctx: Ctx, tables: dict, only_flags: set[str] | None = None) -> None:
